@@ -135,42 +135,90 @@ class Site(t.NamedTuple):
     text: str
 
 
-def codec_call(c: ast.AST, fq: str | None = None):
-    """(kind, receiver, encoding, errors) for X.decode(enc, err) / str(X, enc, err) [decode] and X.encode(enc, err) /
-    bytes(X, enc, err) [encode]; encoding / errors are lower-cased constants, None when not constant."""
-    if not isinstance(c, ast.Call):
-        return None
+# the spellings of a codec name (Lib/encodings/aliases.py), lower-cased and with `_` written as `-`
+_ASCII_CODECS = {"ascii", "us-ascii", "646", "ansi-x3.4-1968", "iso646-us", "us", "cp367", "ibm367"}
+_LATIN1_CODECS = {"latin1", "latin-1", "latin", "l1", "iso-8859-1", "iso8859-1", "iso8859", "8859", "cp819", "ibm819", "iso-ir-100"}
+_UTF8_CODECS = {"utf-8", "utf8", "u8", "utf", "utf8-ucs2", "utf8-ucs4", "cp65001"}
+# (_ASCII_COMPATIBLE, below: codecs that map ASCII text to the same bytes and back; idna is not one - it also limits the
+# length of a label)
+_UNBOUND_CODEC_TYPES = ("bytes", "bytearray", "str")
+_CODECS_FUNCS = ("codecs.decode", "codecs.encode")
 
-    def const(e, default):
-        if e is None:
-            return default
-        v = astq.const_str(e)
-        return v.lower().replace("_", "-") if v is not None else None
 
-    if isinstance(c.func, ast.Attribute) and c.func.attr in ("decode", "encode"):
-        enc = const(astq.arg_or_kw(c, 0, "encoding"), "utf-8")
-        err = astq.arg_or_kw(c, 1, "errors")
-        return c.func.attr, c.func.value, enc, (astq.const_str(err) if err is not None else "strict")
-    d = dotted(c.func)
-    if d in ("str", "bytes", "bytearray") and c.args and (len(c.args) >= 2 or astq.kwarg(c, "encoding") is not None or astq.kwarg(c, "errors") is not None):
-        enc = const(astq.arg_or_kw(c, 1, "encoding"), "utf-8")
-        err = astq.arg_or_kw(c, 2, "errors")
-        return ("decode" if d == "str" else "encode"), c.args[0], enc, (astq.const_str(err) if err is not None else "strict")
+def _arg(c: ast.Call, pos: int, name: str) -> ast.AST | None:
+    """the argument at a position / under a keyword, a literal `**{"name": value}` display counting as the keyword."""
+    v = astq.arg_or_kw(c, pos, name)
+    if v is not None:
+        return v
+    for kw in c.keywords:
+        if kw.arg is None and isinstance(kw.value, ast.Dict):
+            for k, val in zip(kw.value.keys, kw.value.values):
+                if k is not None and astq.const_str(k) == name:
+                    return val
     return None
 
 
-def _enc_arg(c: ast.Call) -> str | None:
-    e = astq.arg_or_kw(c, 0, "encoding")
-    if e is None:
-        return "utf-8"
-    return astq.const_str(e).lower().replace("_", "-") if astq.const_str(e) is not None else None
+def _keyword_names(c: ast.Call) -> list[str | None]:
+    """the keyword names a call passes, a literal `**{"name": ...}` display counting as its keys; None for any other `**`."""
+    out: list[str | None] = []
+    for kw in c.keywords:
+        if kw.arg is None and isinstance(kw.value, ast.Dict) and all(k is not None and astq.const_str(k) is not None for k in kw.value.keys):
+            out.extend(astq.const_str(k) for k in kw.value.keys)
+        else:
+            out.append(kw.arg)
+    return out
 
 
-def _err_arg(c: ast.Call) -> str | None:
-    e = astq.arg_or_kw(c, 1, "errors")
-    if e is None:
-        return "strict"
-    return astq.const_str(e)
+def _opaque_args(c: ast.Call) -> bool:
+    """arguments handed over by unpacking something that is not a literal display with constant keys: which parameter gets
+    what is not known from the call."""
+    if any(isinstance(a, ast.Starred) for a in c.args):
+        return True
+    for kw in c.keywords:
+        if kw.arg is None and not (isinstance(kw.value, ast.Dict) and all(k is not None and astq.const_str(k) is not None for k in kw.value.keys)):
+            return True
+    return False
+
+
+def codec_parts(c: ast.AST, fq: str | None = None):
+    """(kind, receiver, encoding expression | None, errors expression | None, opaque) for every spelling of a codec call:
+    X.decode(enc, err) / X.encode(enc, err); the unbound bytes.decode(X, enc, err) / str.encode(X, enc, err);
+    codecs.decode(X, enc, err) / codecs.encode(X, enc, err); str(X, enc, err) / bytes(X, enc, err) / bytearray(X, enc, err).
+    `opaque`: some argument is passed by unpacking (an expression that is None may then still be given)."""
+    if not isinstance(c, ast.Call):
+        return None
+    d = dotted(c.func)
+    opaque = _opaque_args(c)
+    if d in _CODECS_FUNCS or fq in _CODECS_FUNCS:
+        kind = (fq or d).rsplit(".", 1)[-1]  # type: ignore[union-attr]
+        recv = _arg(c, 0, "obj")
+        if recv is None:
+            return None
+        return kind, recv, _arg(c, 1, "encoding"), _arg(c, 2, "errors"), opaque
+    if isinstance(c.func, ast.Attribute) and c.func.attr in ("decode", "encode"):
+        if isinstance(c.func.value, ast.Name) and c.func.value.id in _UNBOUND_CODEC_TYPES:
+            if not c.args or isinstance(c.args[0], ast.Starred):
+                return None
+            return c.func.attr, c.args[0], _arg(c, 1, "encoding"), _arg(c, 2, "errors"), opaque
+        return c.func.attr, c.func.value, _arg(c, 0, "encoding"), _arg(c, 1, "errors"), opaque
+    if d in ("str", "bytes", "bytearray") and c.args and not isinstance(c.args[0], ast.Starred) and (len(c.args) >= 2 or _arg(c, 1, "encoding") is not None or _arg(c, 2, "errors") is not None):
+        return ("decode" if d == "str" else "encode"), c.args[0], _arg(c, 1, "encoding"), _arg(c, 2, "errors"), opaque
+    return None
+
+
+def codec_call(c: ast.AST, fq: str | None = None):
+    """(kind, receiver, encoding, errors) of a codec call in any spelling (codec_parts); encoding / errors are lower-cased
+    constants (defaults utf-8 / strict), None when not constant."""
+    cp = codec_parts(c, fq)
+    if cp is None:
+        return None
+    kind, recv, enc_e, err_e, _ = cp
+    if enc_e is None:
+        enc: str | None = "utf-8"
+    else:
+        v = astq.const_str(enc_e)
+        enc = v.lower().replace("_", "-") if v is not None else None
+    return kind, recv, enc, (astq.const_str(err_e) if err_e is not None else "strict")
 
 
 class Effects:
@@ -208,16 +256,31 @@ class Effects:
         def add(node, kind, exc):
             out.append(Site(fi, node, kind, exc, norm(node)[:80]))
 
-        def handler(call: ast.Call, err: str | None, pos: int) -> str | None:
+        def handler(call: ast.Call, err: str | None, e: ast.AST | None) -> str | None:
             """the errors handler of a codec call: the constant, or - for a name / conditional expression / parameter whose
             possible values are all known and all total - one of them; None when it may be something that raises."""
             if err is not None or self.text_hook is None:
                 return err
-            e = astq.arg_or_kw(call, pos, "errors")
             vals = self.text_hook(fi, call, e) if e is not None else None
             if vals and all(v in self.handlers_ok for v in vals):
                 return sorted(vals)[0]
             return None
+
+        def codec_site(n: ast.Call, fq: str | None) -> None:
+            cp = codec_parts(n, fq)
+            if cp is None:
+                return
+            kind, _recv, enc, err = codec_call(n, fq)
+            if cp[4] and (cp[2] is None or cp[3] is None):
+                raise AnalysisError(f"{fi.qualname}: `{norm(n)[:60]}` passes its arguments by unpacking: the codec / errors handler is not known")
+            err = handler(n, err, cp[3])
+            if kind == "decode":
+                if not (err in self.handlers_ok or enc in _LATIN1_CODECS):
+                    add(n, "decode", "UnicodeError" if enc == "idna" else "UnicodeDecodeError")
+            elif enc == "idna":
+                add(n, "encode", "UnicodeError")
+            elif enc not in _UTF8_CODECS and err not in self.handlers_ok:
+                add(n, "encode", "UnicodeEncodeError")
 
         for n in walk_no_nested(fn):
             if isinstance(n, ast.Raise):
@@ -257,32 +320,15 @@ class Effects:
                     add(n, "loads", "ValueError")
                 elif fq in self.enum_classes and n.args:
                     add(n, "enum", "ValueError")
-                elif fq in ("builtins.str", "builtins.bytes", "builtins.bytearray") and codec_call(n) is not None:
-                    kind, _recv, enc, err = codec_call(n)
-                    err = handler(n, err, 2)
-                    if kind == "decode":
-                        if not (err in self.handlers_ok or enc in ("latin1", "latin-1", "iso-8859-1", "iso8859-1")):
-                            add(n, "decode", "UnicodeError" if enc == "idna" else "UnicodeDecodeError")
-                    elif enc == "idna":
-                        add(n, "encode", "UnicodeError")
-                    elif enc not in ("utf-8", "utf8") and err not in self.handlers_ok:
-                        add(n, "encode", "UnicodeEncodeError")
+                elif (fq in ("builtins.str", "builtins.bytes", "builtins.bytearray") or fq in _CODECS_FUNCS) and codec_parts(n, fq) is not None:
+                    codec_site(n, fq)
                 elif fq in ("builtins.bytearray", "builtins.bytes") and len(n.args) == 1 and not n.keywords and not isinstance(n.args[0], ast.Constant):
                     if self.size_hook is not None and self.size_hook(fi, n, n.args[0]):
                         add(n, "size", "OverflowError")
                 elif isinstance(n.func, ast.Attribute):
                     m = n.func.attr
-                    if m == "decode" and not (fq and fq.startswith("werkzeug.")):
-                        enc, err = _enc_arg(n), handler(n, _err_arg(n), 1)
-                        total = err in self.handlers_ok or enc in ("latin1", "latin-1", "iso-8859-1", "iso8859-1")
-                        if not total:
-                            add(n, "decode", "UnicodeError" if enc == "idna" else "UnicodeDecodeError")
-                    elif m == "encode" and not (fq and fq.startswith("werkzeug.")):
-                        enc, err = _enc_arg(n), handler(n, _err_arg(n), 1)
-                        if enc == "idna":
-                            add(n, "encode", "UnicodeError")
-                        elif enc not in ("utf-8", "utf8") and err not in self.handlers_ok:
-                            add(n, "encode", "UnicodeEncodeError")
+                    if m in ("decode", "encode") and not (fq and fq.startswith("werkzeug.")):
+                        codec_site(n, fq)
                     elif m == "index" and len(n.args) >= 1 and not (fq and fq.startswith("werkzeug.")):
                         add(n, "index", "ValueError")
                     elif m == "to_bytes":
@@ -298,7 +344,7 @@ class Effects:
                             add(n, "datetime-range", "OverflowError")
                             if not aware and m != "utctimetuple":
                                 add(n, "datetime-range", "ValueError")
-                    elif self.dt_hook is not None and m == "replace" and not (fq and fq.startswith("werkzeug.")) and (n.args or any(k.arg in ("year", "month", "day", None) for k in n.keywords)):
+                    elif self.dt_hook is not None and m == "replace" and not (fq and fq.startswith("werkzeug.")) and (n.args or any(k in ("year", "month", "day", None) for k in _keyword_names(n))):
                         # the date fields (positional: year, month, day first); a text receiver never has a datetime origin
                         if self.dt_hook(fi, n, n.func.value)[0]:
                             add(n, "datetime-range", "ValueError")
@@ -778,6 +824,44 @@ def const_text(e: ast.AST | None) -> str | bytes | None:
 
 _CASE_METHODS = {"lower", "upper", "casefold", "swapcase", "title", "capitalize"}
 _NO_NEW_ELEMENTS = {"pop", "get", "clear", "remove", "discard", "popitem", "copy", "keys", "items", "values", "index", "count", "sort", "reverse", "join", "__contains__", "__len__"}
+
+
+_ASCII_COMPATIBLE = _UTF8_CODECS | _LATIN1_CODECS
+# methods of str / bytes whose result (or every piece of it) holds only characters of the receiver (or ASCII padding)
+_ASCII_KEEPING = {
+    "strip", "lstrip", "rstrip", "lower", "upper", "casefold", "title", "capitalize", "swapcase", "split", "rsplit",
+    "partition", "rpartition", "splitlines", "removeprefix", "removesuffix", "expandtabs", "zfill",
+}
+
+
+def _below_128(op: str, a: ast.AST, b: ast.AST | None, truth: bool, c: str) -> bool:
+    """the atom says that the element named c (a character: ord(c) / c against a one-character text; a byte: c) is < 128."""
+
+    def is_elem(x: ast.AST | None) -> str | None:
+        if isinstance(x, ast.Name) and x.id == c:
+            return "raw"
+        if isinstance(x, ast.Call) and dotted(x.func) == "ord" and len(x.args) == 1 and not x.keywords and isinstance(x.args[0], ast.Name) and x.args[0].id == c:
+            return "ord"
+        return None
+
+    def bound(x: ast.AST | None, how: str) -> int | None:
+        k = const_int(x)
+        if k is not None:
+            return k  # ord(c) < k, or a byte c < k (a character never compares with an int: TypeError, not a wrong answer)
+        v = const_text(x)
+        if how == "raw" and v is not None and len(v) == 1:
+            return ord(v) if isinstance(v, str) else v[0]
+        return None
+
+    if op != "lt":
+        return False
+    if truth:  # a < b
+        how = is_elem(a)
+        k = bound(b, how) if how else None
+        return k is not None and k <= 128
+    how = is_elem(b)  # not (a < b): b <= a
+    k = bound(a, how) if how else None
+    return k is not None and k <= 127
 
 
 class St(t.NamedTuple):
@@ -1843,7 +1927,15 @@ class Flow:
         if isinstance(e, ast.NamedExpr):
             return ub(fi, e.value, node, st)
         if isinstance(e, ast.IfExp):
-            return ub(fi, e.body, node, st) or ub(fi, e.orelse, node, st)
+            # each alternative under the test that selects it: `a if a < b else b` is min(a, b)
+            for branch, truth in ((e.body, True), (e.orelse, False)):
+                if node is not None and isinstance(branch, (ast.Name, ast.Attribute)):
+                    extra = [at for c, ctruth in _conjuncts(e.test, truth) for at in self._atoms_of(fi, c, ctruth, node, "expr")]
+                    if self._upper_bounded(fi, branch, node, st, extra):
+                        continue
+                if ub(fi, branch, node, st):
+                    return True
+            return False
         if isinstance(e, ast.BinOp) and isinstance(e.op, (ast.Add, ast.Sub, ast.Mult)):
             return ub(fi, e.left, node, st) or ub(fi, e.right, node, st)
         if isinstance(e, ast.Call):
@@ -1899,9 +1991,9 @@ class Flow:
             return False
         return False
 
-    def _upper_bounded(self, fi: FuncInfo, e: ast.AST, node, st: St) -> bool:
+    def _upper_bounded(self, fi: FuncInfo, e: ast.AST, node, st: St, extra: t.Iterable["Atom"] = ()) -> bool:
         ks = self.keys(fi, e, node)
-        for at in self.atoms(fi, node):
+        for at in list(self.atoms(fi, node)) + list(extra):
             other = None
             if at.op == "lt" and at.truth and norm(at.a) in ks:
                 other = at.b  # e < B
@@ -2240,6 +2332,152 @@ class Flow:
         if isinstance(e, ast.Name) and node is not None:
             defs = self.rd(fi).reaching(node, e.id)
             return bool(defs) and all(d_.kind in ("assign", "walrus") and d_.index is None and d_.value is not None and isinstance(d_.value, ast.Call) and isinstance(d_.value.func, ast.Attribute) and d_.value.func.attr == "strip" and not d_.value.args for d_ in defs)
+        return False
+
+    # -- ASCII-only text / bytes ----------------------------------------------------
+    def ascii_only(self, fi: FuncInfo, e: ast.AST | None, node, st: St = St(), depth: int = 0) -> bool:
+        """every character / byte of e's value is < 128 whenever `node` is evaluated: established by a dominating test
+        that means `is ASCII` (X.isascii() true in any polarity / early-return spelling, all(ord(c) < 128 for c in X), a
+        package predicate that returns such a test of its parameter), by the value's origin (an ASCII constant, the result
+        of a strict ascii codec call - it would have raised otherwise -, an ASCII-compatible codec call or an
+        ASCII-preserving method of an ASCII value, a piece / element / character of one), through local definitions,
+        comprehension variables and - for a parameter - the argument at every call site on the request path.
+        Not: str.isdigit() / isdecimal() / isalnum() ... (true for non-ASCII digits and letters)."""
+        if e is None or depth > 12:
+            return False
+        if isinstance(e, ast.Constant):
+            v = e.value
+            # None holds no characters (a method called on it is an AttributeError, which is not this analysis' business)
+            return v is None or (isinstance(v, bytes) and all(c < 128 for c in v)) or (isinstance(v, str) and v.isascii())
+        if node is not None:
+            ks = self.keys(fi, e, node)
+            for at in self.atoms(fi, node):
+                if self._ascii_test(fi, at.op, at.a, at.b, at.truth, ks) and self.fresh(fi, at, node) and not self._mutated_in_place(fi, at.names):
+                    return True
+        if isinstance(e, ast.NamedExpr):
+            return self.ascii_only(fi, e.value, node, st, depth + 1)
+        if isinstance(e, ast.IfExp):
+            return self.ascii_only(fi, e.body, node, st, depth + 1) and self.ascii_only(fi, e.orelse, node, st, depth + 1)
+        if isinstance(e, ast.BinOp) and isinstance(e.op, ast.Add):
+            return self.ascii_only(fi, e.left, node, st, depth + 1) and self.ascii_only(fi, e.right, node, st, depth + 1)
+        if isinstance(e, (ast.Tuple, ast.List)):
+            return bool(e.elts) and all(not isinstance(x, ast.Starred) and self.ascii_only(fi, x, node, st, depth + 1) for x in e.elts)
+        cc = codec_call(e)
+        if cc is not None:
+            kind, recv, enc, err = cc
+            enc = enc or ""
+            if enc in _ASCII_CODECS:
+                # the ascii codec hands back nothing but ASCII (strict raises instead); the handlers that could put
+                # something else into the result: decode 'replace' (U+FFFD), 'surrogateescape' (U+DCxx / bytes >= 0x80)
+                return err in (("strict", "ignore", "backslashreplace") if kind == "decode" else ("strict", "ignore", "replace", "backslashreplace", "xmlcharrefreplace", "namereplace"))
+            if enc in _ASCII_COMPATIBLE:
+                # ASCII text <-> the same ASCII bytes in every ASCII-compatible codec
+                return self.ascii_only(fi, recv, node, st, depth + 1)
+            return False
+        if isinstance(e, ast.Call) and isinstance(e.func, ast.Attribute):
+            m = e.func.attr
+            if m in _ASCII_KEEPING:
+                return self.ascii_only(fi, e.func.value, node, st, depth + 1)
+            if m == "replace" and len(e.args) >= 2 and not e.keywords:
+                return self.ascii_only(fi, e.args[1], node, st, depth + 1) and self.ascii_only(fi, e.func.value, node, st, depth + 1)
+            if m == "join" and len(e.args) == 1 and not e.keywords:
+                return self.ascii_only(fi, e.func.value, node, st, depth + 1) and self._ascii_elements(fi, e.args[0], node, st, depth + 1)
+            return False
+        if isinstance(e, ast.Call) and dotted(e.func) in ("bytes", "bytearray", "memoryview") and len(e.args) == 1 and not e.keywords:
+            return self.ascii_only(fi, e.args[0], node, st, depth + 1)
+        if isinstance(e, ast.Call):
+            # a function of the package: every value it returns (evaluated in the callee, its parameters bound at this call)
+            gs = self.resolve_callee(fi, e)
+            if not gs or len(st.cs) >= 3:
+                return False
+            for g in gs:
+                if any(isinstance(x, (ast.Yield, ast.YieldFrom)) for x in walk_no_nested(g.node)):
+                    return False
+                st2 = st._replace(cs=st.cs + ((fi, e, g),))
+                for r in astq.returns_of(g.node):
+                    if r.value is not None and not self.ascii_only(g, r.value, cfg_of(g).node_of(r), st2, depth + 1):
+                        return False
+            return True
+        if isinstance(e, ast.Subscript):
+            return self.ascii_only(fi, e.value, node, st, depth + 1)
+        if isinstance(e, ast.Name):
+            cb = self._comp_binding(fi, e) if hasattr(e, "_parent") else None
+            if cb is not None:
+                return self.ascii_only(fi, cb[0].iter, node, st, depth + 1)
+            if node is None:
+                return False
+            defs = self.rd(fi).reaching(node, e.id)
+            if not defs or self._mutated_in_place(fi, {e.id}):
+                return False  # a buffer / list that is extended after its definition holds more than its definition says
+            for d in defs:
+                if d.kind in ("assign", "walrus", "unpack", "for") and d.value is not None:
+                    if not self.ascii_only(fi, d.value, d.node, st, depth + 1):
+                        return False
+                elif d.kind == "param":
+                    srcs = self.param_sources(fi, d.name, st)
+                    if srcs is None:
+                        return False
+                    for f2, x, n2, s2 in srcs:
+                        if not self.ascii_only(f2, x, n2, s2, depth + 1):
+                            return False
+                else:
+                    return False
+            return True
+        return False
+
+    def _ascii_elements(self, fi: FuncInfo, e: ast.AST, node, st: St, depth: int) -> bool:
+        """every element of the iterable e is ASCII-only: a comprehension / generator whose element is, or pieces of one."""
+        if isinstance(e, (ast.GeneratorExp, ast.ListComp, ast.SetComp)):
+            return self.ascii_only(fi, e.elt, node, st, depth + 1)
+        return self.ascii_only(fi, e, node, st, depth + 1)
+
+    def _mutated_in_place(self, fi: FuncInfo, names: t.Iterable[str]) -> bool:
+        """one of the names is a buffer changed in place somewhere in the function (a test of its content then says
+        nothing about a later use; rebinding is the freshness check's business)."""
+        names = set(names)
+        for n in walk_no_nested(fi.node):
+            if isinstance(n, ast.Call) and isinstance(n.func, ast.Attribute) and isinstance(n.func.value, ast.Name) and n.func.value.id in names and n.func.attr in ("extend", "append", "insert", "__setitem__", "__iadd__", "readinto"):
+                return True
+            if isinstance(n, ast.Subscript) and isinstance(n.ctx, (ast.Store, ast.Del)) and isinstance(n.value, ast.Name) and n.value.id in names:
+                return True
+            if isinstance(n, ast.Call) and isinstance(n.func, ast.Attribute) and n.func.attr in ("readinto", "readinto1", "recv_into", "recvfrom_into", "pack_into") and any(isinstance(a, ast.Name) and a.id in names for a in n.args):
+                return True
+        return False
+
+    def _ascii_test(self, fi: FuncInfo, op: str, a: ast.AST, b: ast.AST | None, truth: bool, ks: set[str], depth: int = 0) -> bool:
+        """the atom (op, a, b) being `truth` means: the value spelled as one of `ks` is ASCII-only."""
+        if op != "truthy" or not isinstance(a, ast.Call) or a.keywords:
+            return False
+        if isinstance(a.func, ast.Attribute) and a.func.attr == "isascii" and not a.args:
+            return truth and norm(a.func.value) in ks
+        if dotted(a.func) in ("all", "any") and len(a.args) == 1 and isinstance(a.args[0], (ast.GeneratorExp, ast.ListComp)):
+            # all(ord(c) < 128 for c in X) is true / any(ord(c) > 127 for c in X) is false: the element test is decided
+            # the same way for every element
+            if truth != (dotted(a.func) == "all"):
+                return False
+            comp = a.args[0]
+            if len(comp.generators) == 1 and not comp.generators[0].ifs and isinstance(comp.generators[0].target, ast.Name) and norm(comp.generators[0].iter) in ks:
+                c = comp.generators[0].target.id
+                return any(_below_128(o, x, y, tr, c) for el, tr0 in _conjuncts(comp.elt, truth) for o, x, y, tr in satoms(el, tr0))
+            return False
+        if depth < 2 and not any(isinstance(x, ast.Starred) for x in a.args):
+            # a predicate of the package: `def _is_ascii(text): return text.isascii()` (its only statement is the return),
+            # in either polarity (`return not text.isascii()` ... `if _has_wide(x): return`)
+            gs = self.resolve_callee(fi, a)
+            for g in gs:
+                body = [s_ for s_ in g.node.body if not (isinstance(s_, ast.Expr) and isinstance(s_.value, ast.Constant))]  # type: ignore[attr-defined]
+                if len(body) != 1 or not isinstance(body[0], ast.Return) or body[0].value is None:
+                    return False
+                hit = False
+                for el, tr0 in _conjuncts(body[0].value, truth):
+                    for o, x, y, tr in satoms(el, tr0):
+                        for p in g.params:
+                            bd = self.bind(g, a, p)
+                            if bd is not None and bd[0] == "arg" and norm(bd[1]) in ks and self._ascii_test(g, o, x, y, tr, {p}, depth + 1):
+                                hit = True
+                if not hit:
+                    return False
+            return bool(gs)
         return False
 
     # -- dependence on parameters ---------------------------------------------------
